@@ -173,6 +173,13 @@ class Snap:
         self.owner[path] = owner
         self.nodes[path] = t
         self._flags(path, t, owner, 0)
+        if isinstance(t, self.M.tp.ParameterizedType):
+            # explicit type arguments are declared types of their own (C04 replaces one of them in place)
+            for i, a in enumerate(t.type_args):
+                ap = '%s<%d>' % (path, i)
+                self.items[ap] = ('targ', self.tkey(a), str(a))
+                self.owner[ap] = owner
+                self.nodes[ap] = a
 
     def _flags(self, path, t, owner, depth):
         M = self.M
